@@ -58,6 +58,12 @@ StateFails(e, sr) ==
     \cup Fail("C10_RefMatchesTask", C10_RefMatchesTask(s.job, s.pods))
     \cup Fail("C11_Coherent", C11_Coherent(s.job))
     \cup Fail("C20_Converges", e.ev # "DrainFailed")
+    \* deadline goals hold at every quiet point of the drain (the clock has moved, the armed re-sync has fired, nothing is left to do)
+    \cup (IF e.ev # "Quiet" THEN {} ELSE
+             Fail("C10_Reaches", C10_ReachesAt(c, s.job, s.pods, NoKube(s), s.now))
+        \cup Fail("C12_KillCompletes", C12_KillCompletesAt(c, s.job, s.pods, s.now, NoKube(s)))
+        \cup Fail("C12_PendingCompletes", C12_PendingCompletesAt(c, s.job, s.pods, s.now, NoKube(s)))
+        \cup Fail("C13_TTLEventually", C13_TTLEventually(c, s.job, s.now)))
     \cup (IF ~final THEN {} ELSE
              Fail("C09_Listed", C09_Listed(s.job, s.pods))
         \cup Fail("C09_ForeignEnds", C09_ForeignEnds(s.job, s.pods))
